@@ -148,11 +148,12 @@ CHECKS = {
         level_text=("Broker role: a raw publisher sends generated interleavings of QoS 1 and QoS 2 PUBLISH packets, DUP repeats before PUBREL, PUBRELs (in PUBREC order, as MQTT obliges a sender), duplicate "
                     "PUBRELs after PUBCOMP, identifier reuse after completion and 0.5-3 rings of unrelated traffic between PUBLISH and PUBREL; after every step the publisher's stream must contain "
                     "exactly the expected ack (PUBACK/PUBREC/PUBCOMP with the packet's identifier, nothing else) and a QoS 2 subscriber's stream exactly the expected hand-overs: QoS 1 once per PUBLISH, "
-                    "QoS 2 never before and exactly once at its PUBREL, with the topic and payload of the original PUBLISH. Client role: see unit client-role. Sampling."),
+                    "QoS 2 never before and exactly once at its PUBREL, with the topic and payload of the original PUBLISH. Client role (unit client-role): the library Client, connected to a fake server, receives the same kind of scripts (QoS 1/2 PUBLISH, DUP repeats, PUBREL, duplicate PUBREL, >= 1 ring of unrelated inbound traffic between PUBLISH and PUBREL); its acks and the invocations of the application callbacks are checked the same way. Sampling."),
         level_note=("Trusted: harness/ref/codec, the exact-cut argument (publisher barrier, then subscriber barrier). PUBRELs of concurrently open exchanges are sent in PUBREC order (MQTT-4.6.0-4)."),
         rule=("rapid-generated scripts (3-24 steps over ids {1,2,3,7}); non-trivial = a QoS 2 exchange with a duplicate PUBLISH or PUBREL, or with >= 1 ring of filler before its PUBREL; distinct = FNV-64 of the script JSON"),
         assumptions=["the sender releases exchanges in PUBREC order", "duplicates repeat the original content"],
-        units=[dict(name="broker-role", test="TestC02Broker", checks=(3000, 20000), shards=(4, 14), timeout=(240, 3000))]),
+        units=[dict(name="broker-role", test="TestC02Broker", checks=(3000, 20000), shards=(4, 14), timeout=(240, 3000)),
+               dict(name="client-role", pkg="p_client", test="TestC02Client", checks=(1500, 20000), shards=(4, 14), timeout=(240, 3000))]),
 
     "C03": dict(
         pkg="p_codec", level="exploration",
@@ -209,7 +210,8 @@ CHECKS = {
         level_note=("Trusted: harness/ref/codec strict parser, the payload self-description. Client-role variant (library Client publishing from several goroutines) is in unit client-role when present."),
         rule=("rapid-generated configurations; non-trivial = publishers actually interleaved on a subscriber (publisher switches > 4 per subscriber) and at least one packet was written through the ring's wrap path (derived from stream offsets); distinct = FNV-64 of the configuration JSON"),
         assumptions=["each subscriber holds exactly one subscription per topic"],
-        units=[dict(name="broker-role", test="TestC17Broker", checks=(120, 3000), shards=(4, 14), timeout=(300, 3000))]),
+        units=[dict(name="broker-role", test="TestC17Broker", checks=(120, 3000), shards=(4, 14), timeout=(300, 3000)),
+               dict(name="client-role", pkg="p_client", test="TestC17Client", checks=(600, 12000), shards=(4, 14), timeout=(300, 3000))]),
 
     "C18": dict(
         pkg="p_broker", level="exploration", race=True,
@@ -268,6 +270,24 @@ CHECKS = {
             dict(name="controlled-noclose", test="TestC15ControlledNoClose", checks=(200, 20000), shards=(4, 14)),
             dict(name="free", test="TestC15Free", checks=(120, 6000), shards=(4, 14)),
             dict(name="pingpong", test="TestC15PingPong", kind="enum", shards=(2, 8)),
+        ]),
+
+    "C20": dict(
+        pkg="p_client", level="exploration",
+        technique="enumerated CONNACK answers and rapid-generated subscribe/unsubscribe/inbound-PUBLISH scripts played by a fake server against the library Client, with a reference matcher model of callback dispatch",
+        level_text=("Connect part (enumerated): CONNACK code 0-5 x SessionPresent, malformed CONNACKs, other packet types, close and silence until ConnectTimeout: Connect must return nil exactly for code 0, the "
+                    "refusal code as its error for 1-5, an error otherwise, close the socket and leave no goroutine with a go-mqtt frame behind (census). Dispatch part (sampled): 1-4 Subscribe calls with 1-3 "
+                    "filters and their own callbacks, SUBACK codes 0/1/2/0x80 per filter, inbound PUBLISH at QoS 0-2 on matching and non-matching topics with DUP repeats before PUBREL and duplicate PUBRELs, "
+                    "Unsubscribe calls, filler traffic; after every inbound step (cut by a PINGREQ the library answers) each request's callback must have been invoked exactly once if exactly one of its "
+                    "granted, still subscribed filters matches the delivered topic (1..k times for k > 1 matching filters), never otherwise, with the delivered topic and payload; the client's acks are checked as in C02."),
+        level_note=("Trusted: harness/ref/match, harness/ref/codec, the fake server. Filters and topics without empty levels (known finding empty-level of the shared topic tree is C06's). "
+                    "When k > 1 filters of ONE request match, 1..k invocations are accepted (per-subscription dispatch)."),
+        rule=("unit connect: enumerated answers, non-trivial = anything but a plain code-0 CONNACK; unit dispatch: rapid-generated scripts, non-trivial = >= 2 subscribe requests separated by inbound traffic "
+              "(one invoked, another not) or an unsubscribe of a held filter; distinct = FNV-64 of the case JSON"),
+        assumptions=["one case at a time per process (goroutine census)", "the server never delivers a topic matched only by a filter it refused with 0x80 ... it may, and then no callback is expected"],
+        units=[
+            dict(name="connect", test="TestC20Connect", kind="enum", shards=(2, 2), timeout=(240, 600)),
+            dict(name="dispatch", test="TestC20Dispatch", checks=(1500, 15000), shards=(4, 14), timeout=(240, 3000)),
         ]),
 }
 
